@@ -351,7 +351,7 @@ def search_extra(mode):
     disjunctions whose left stream is finite, and element predicates that print alike asked one after the other"""
     from predicate.standard_predicates import le_p, lt_p, ne_p
     ps = []
-    for a, b in ((0, 3), (-5, 5), (-20, -17), (7, 8), (2, 2)):
+    for a, b in ((0, 3), (-5, 5), (-20, -17), (7, 9), (2, 2)):
         for lo in (ge_p, gt_p):
             for hi in (le_p, lt_p):
                 ps += [lo(a) & hi(b), hi(b) & lo(a)]
